@@ -98,7 +98,7 @@ Definition u_missing (attrs : list (list Z * bool)) (u : ubody) : bool :=
 Definition u_item_err (attrs : list (list Z * bool)) (hs : list (list Z * Z)) (i : uitem) : bool :=
   match i with
   | UAttr n _ _ => negb (existsb (fun a => str_eqb n (fst a)) attrs)
-  | UBlock t ls _ => match afind_last t hs with Some want => negb (lenZ ls =? want) | None => true end
+  | UBlock t ls _ => match afind t hs with Some want => negb (lenZ ls =? want) | None => true end
   | UStuck _ => false
   end.
 
@@ -109,18 +109,14 @@ Fixpoint observe_u (S : sch) (rho : ctx) {struct S} : ubody -> otree :=
             (flat_map (fun i => match i with UAttr n e env => [(n, value (env ++ rho) e)] | _ => [] end) u)
             [] [] false false
   | Sch attrs blocks =>
-      let subs := (fix go (bl : list (list Z * Z * sch)) : list (list Z * (ubody -> otree)) :=
-                     match bl with
-                     | [] => []
-                     | (t, _, S') :: r => (t, observe_u S' rho) :: go r
-                     end) blocks in
+      let subs := map (fun p : list Z * Z * sch => (fst (fst p), observe_u (snd p) rho)) blocks in
       fun u =>
       ONode (u_missing attrs u || existsb (u_item_err attrs (headers blocks)) u)
             (u_attrs rho attrs u)
             (flat_map (fun i =>
                match i with
                | UBlock t ls body =>
-                   match afind_last t (headers blocks) with
+                   match afind t (headers blocks) with
                    | Some want =>
                        if lenZ ls =? want
                        then [(t, ls, match afind t subs with Some f => f body | None => onode_empty end)]
@@ -130,4 +126,44 @@ Fixpoint observe_u (S : sch) (rho : ctx) {struct S} : ubody -> otree :=
                | _ => []
                end) u)
             [] false false
+  end.
+
+(* ---- bodies the README's equation speaks about, relative to the schemata -------------------- *)
+(* The body uses `dynamic` only for block types the schema of its level asks for, with as
+   many label expressions as the schema has label names (a dynamic block of another type,
+   or with another number of labels, is reported by Expand even when it generates nothing,
+   while the written-out body then has nothing to report); the schema's block types are
+   distinct and do not include "dynamic" itself; bodies read with JustAttributes contain no
+   dynamic block and are not inside the content of one ([inside]). *)
+Fixpoint nodupb (l : list (list Z)) : bool :=
+  match l with [] => true | x :: r => negb (str_mem x r) && nodupb r end.
+Definition types_ok (blocks : list (list Z * Z * sch)) : bool :=
+  let ts := map (fun p : list Z * Z * sch => fst (fst p)) blocks in
+  nodupb ts && negb (str_mem s_dynamic ts).
+
+Fixpoint conforms (S : sch) {struct S} : bool -> dbody -> bool :=
+  match S with
+  | SJust => fun inside b =>
+      negb inside &&
+      forallb (fun d => match d with DDynamic _ _ _ _ _ | DDynBad _ => false | _ => true end) b
+  | Sch attrs blocks =>
+      let subs := map (fun p : list Z * Z * sch => (fst (fst p), (snd (fst p), conforms (snd p)))) blocks in
+      fun inside b =>
+      types_ok blocks &&
+      forallb (fun d =>
+        match d with
+        | DAttr _ _ => true
+        | DBlock t ls body =>
+            negb (str_eqb t s_dynamic) &&
+            match afind t subs with
+            | Some (n, f) => if lenZ ls =? n then f inside body else true
+            | None => true
+            end
+        | DDynamic t _ _ les content =>
+            match afind t subs with
+            | Some (n, f) => (lenZ les =? n) && f true content
+            | None => false
+            end
+        | DDynBad _ => false
+        end) b
   end.
